@@ -111,5 +111,16 @@ def main():
         sys.stdout.flush()
 
 
+def oneshot(argv):
+    """run one call directly in this process (used under strace for syscall-level fault injection)"""
+    from pathlib import Path
+    fn = _folder.copy_folder_from_global_to_local if argv[0] == "folder" else _image_folder.copy_imagefolder_from_global_to_local
+    res = fn(global_path=Path(argv[1]), local_path=Path(argv[2]), relative_path=None if argv[3] == "-" else argv[3])
+    print("RESULT", res)
+
+
 if __name__ == "__main__":
-    main()
+    if len(sys.argv) > 2 and sys.argv[2] == "--oneshot":
+        oneshot(sys.argv[3:])
+    else:
+        main()
